@@ -17,7 +17,11 @@ RArea2(ps) == RArea2From(ps, 1)
 ROuter == 0
 RInner == 1
 
-IsClosed(r) == r[1] = r[Len(r)]
+\* id 51 in Z / M is -0.0: equal to 0.0 (id 0) as a number, different in its bits
+NormV(v) == IF v = 51 THEN 0 ELSE v
+NormPt(p) == << p[1], p[2], NormV(p[3]), NormV(p[4]) >>
+\* closed = the first and the last vertex are equal AS NUMBERS in all four fields
+IsClosed(r) == NormPt(r[1]) = NormPt(r[Len(r)])
 CloseRing(r) == IF IsClosed(r) THEN r ELSE Append(r, r[1])
 Reverse(r) == [i \in 1..Len(r) |-> r[Len(r) + 1 - i]]
 RECURSIVE AsSeq(_, _)
